@@ -403,8 +403,24 @@ def corruptions(data: bytes, w: int, version: int, rng: random.Random, dense: bo
     return out
 
 
+def big_blobs() -> List[Tuple[str, bytes]]:
+    """files whose reading cost can be out of proportion to their size (judged on time and allocation only)"""
+    def head(w, version, segs):
+        h = b"FJ" + struct.pack("<HQQ", w, version, len(segs)) + struct.pack("<QL", 0, 0)
+        return h + b"".join(struct.pack("<QQQQ", *sg) for sg in segs)
+    raw = dict(format=lzma.FORMAT_RAW, filters=[{"id": lzma.FILTER_LZMA2}])
+    out = [("v3-zero-filled-payload", head(64, 3, [(0, 2, 0, 2)]) + bytes(4_000_000)),
+           ("v3-small-file-huge-pool", head(64, 3, [(0, 2, 0, 2)]) + lzma.compress(bytes(96 << 20), **raw)),
+           ("v3-two-streams", head(64, 3, [(0, 2, 0, 2)]) + lzma.compress(bytes(16), **raw) + lzma.compress(bytes(16), **raw)),
+           ("v1-large-plain", head(8, 1, [(0, 2, 0, 2)]) + bytes(3_000_000))]
+    return out
+
+
 def _read_case(args):
     idx, blob = args
+    big = None
+    if isinstance(blob, tuple):
+        big, blob = blob
     par.fjm_run()
     from flipjump.fjm.fjm_reader import Reader
     from flipjump.utils.exceptions import FlipJumpReadFjmException
@@ -414,14 +430,19 @@ def _read_case(args):
     try:
         path = d / "x.fjm"
         path.write_bytes(blob)
-        rec = {"kind": "read", "w": 8, "version": 0, "calls": [], "bytes": list(blob), "unz": [], "idx": idx}
-        # the decompression oracle for version-3 payloads (an observation about the input, see FJMFormat)
-        if len(blob) >= 32 and blob[:2] == b"FJ" and int.from_bytes(blob[4:12], "little") == 3:
+        rec = {"kind": "read", "w": 8, "version": 0, "calls": [], "bytes": list(blob if big is None else blob[:96]), "unz": [], "idx": idx,
+               "big": big, "size": len(blob), "trailing": False}
+        # the decompression oracle for version-3 payloads (an observation about the input, see FJMFormat): the payload is ONE
+        # raw LZMA2 stream; bytes after its end marker make the record ambiguous (accepting the first stream's image or rejecting
+        # the file are both within the property) and only totality is judged then
+        if big is None and len(blob) >= 32 and blob[:2] == b"FJ" and int.from_bytes(blob[4:12], "little") == 3:
             cnt = int.from_bytes(blob[12:20], "little")
             if cnt < (1 << 20) and len(blob) >= 32 + 32 * cnt:
                 try:
-                    pool = lzma.decompress(blob[32 + 32 * cnt:], format=lzma.FORMAT_RAW, filters=[{"id": lzma.FILTER_LZMA2}])
-                    rec["unz"] = [list(pool)]
+                    dec = lzma.LZMADecompressor(format=lzma.FORMAT_RAW, filters=[{"id": lzma.FILTER_LZMA2}])
+                    pool = dec.decompress(blob[32 + 32 * cnt:])
+                    rec["unz"] = [list(pool)] if dec.eof else []
+                    rec["trailing"] = bool(dec.eof and dec.unused_data)
                 except lzma.LZMAError:
                     rec["unz"] = []
         soft, hard = resource.getrlimit(resource.RLIMIT_AS)
